@@ -36,6 +36,10 @@ pub enum Case {
     /// bit-level stream read through BufBitReader<E, WordAdapter<W, faulty source>>; a width above 64 stands for
     /// skip_bits(width - 64)
     BitRead { e: En, w: Wd, seed: u64, widths: Vec<u8>, schedule: Vec<Act> },
+    /// bit-level stream written through BufBitWriter<E, WordAdapter<W, faulty sink>> and then *dropped* without an
+    /// explicit flush while the sink is still faulty: the drop either delivers the last word or reports the loss
+    /// the only way a destructor can (it panics, as the library documents); it never returns normally with bytes missing
+    DropFault { e: En, w: Wd, fields: Vec<(u64, u8)>, schedule: Vec<Act> },
     /// std::io::Write::write_all on BufBitWriter<E, WordAdapter<W, faulty sink>> after `pre` bits, then flush
     IoWrite { e: En, w: Wd, pre: u8, slice: Vec<u8>, schedule: Vec<Act> },
     /// the byte sink's flush reports ErrorKind::Interrupted `faults` times and then succeeds; the caller retries
@@ -54,7 +58,8 @@ to u32 on 2-word sequences (write side and read side); random schedules for all 
 read_word / write_word / word_pos / set_word_pos sequences; an absolute set_word_pos(k) after a read error was reported must still \
 address word k; a byte sink whose flush reports Interrupted a few times before it succeeds, with the caller retrying (the flush that returns Ok \
 must have reached the sink, every byte must be there exactly once, later writes follow directly); bit-level reads and skips with one fault at \
-every backend call index (a skip that returns Ok must have passed over exactly that many bits); byte slices written with io::Write::write_all through a bit writer over the adapter; bit-level streams written and read through BufBitWriter/BufBitReader over the adapter, both \
+every backend call index (a skip that returns Ok must have passed over exactly that many bits); a bit writer dropped without an explicit flush while the sink is still faulty (the drop must deliver the last word or panic, never return \
+normally with bytes missing); byte slices written with io::Write::write_all through a bit writer over the adapter; bit-level streams written and read through BufBitWriter/BufBitReader over the adapter, both \
 endiannesses, compared with the memory image. Oracle: without faults the sink holds exactly the concatenated native-endian word bytes; with \
 faults, whenever write_word / read_word / flush returns Ok every byte of that word was transferred exactly once and in order (sink == \
 concatenation of all Ok words; word read == word at that index); whenever it returns Err the bytes received so far are the Ok words followed by \
@@ -478,6 +483,65 @@ where
     Ok(o)
 }
 
+fn drop_fault<W>(e: En, fields: &[(u64, u8)], schedule: &[Act], wname: &str) -> CheckResult
+where
+    W: Wordy + dsi_bitstream::traits::Word,
+    u64: common_traits::CastableInto<W>,
+{
+    let mut model = BitVec::new();
+    for &(v, n) in fields {
+        model.push_field((v & crate::ops::mask64(n as usize)) as u128, n as usize, e);
+    }
+    model.pad_to(<W as Wordy>::BYTES * 8);
+    let exp = model.to_bytes(e);
+    let sink = Faulty::new(schedule, vec![]);
+    let mut o = Outcome::new();
+    let mut write_err = false;
+    let mut drop_panicked = false;
+    let mut at_error: Option<Vec<u8>> = None;
+    macro_rules! go {
+        ($E:ty) => {{
+            let mut bw = std::mem::ManuallyDrop::new(BufBitWriter::<$E, _>::new(WordAdapter::<W, _>::new(sink.clone())));
+            for &(v, n) in fields {
+                if bw.write_bits(v & crate::ops::mask64(n as usize), n as usize).is_err() {
+                    write_err = true;
+                    break;
+                }
+            }
+            if write_err {
+                // the history ended with a reported error (D8): what the writer still holds is unspecified, so the
+                // sink is judged as it is now, and the writer is torn down without faults
+                at_error = Some(sink.0.borrow().bytes.clone());
+                sink.0.borrow_mut().armed = false;
+            }
+            let bw = std::mem::ManuallyDrop::into_inner(bw);
+            drop_panicked = guarded(move || drop(bw)).is_err();
+        }};
+    }
+    match e {
+        En::BE => go!(BE),
+        En::LE => go!(LE),
+    }
+    label_faults(&mut o, &sink);
+    let got = at_error.unwrap_or_else(|| sink.0.borrow().bytes.clone());
+    if write_err || drop_panicked {
+        o.label("error_reported");
+        if drop_panicked {
+            o.nt("drop_reported_the_loss_by_panicking");
+        }
+        if got.len() > exp.len() || got[..] != exp[..got.len()] {
+            fail!(format!("drop_fault/{}/err_state", wname), "an error was reported but the sink ({}) is not a prefix of the memory image ({})", crate::ops::hex(&got), crate::ops::hex(&exp));
+        }
+    } else if got != exp {
+        fail!(
+            format!("drop_fault/{}/silent_loss", wname),
+            "every write returned Ok and dropping the writer returned normally, but the sink holds {} while the memory image is {}; schedule {:?}",
+            crate::ops::hex(&got), crate::ops::hex(&exp), schedule
+        );
+    }
+    Ok(o)
+}
+
 fn io_write<W>(e: En, pre: u8, slice: &[u8], schedule: &[Act], wname: &str) -> CheckResult
 where
     W: Wordy + dsi_bitstream::traits::Word,
@@ -704,6 +768,7 @@ where
 
 pub fn check_case(c: &Case, _env: &Env) -> CheckResult {
     match c {
+        Case::DropFault { e, w, fields, schedule } => for_w!(*w, W => drop_fault::<W>(*e, fields, schedule, &format!("w{}", w.bits()))),
         Case::IoWrite { e, w, pre, slice, schedule } => for_w!(*w, W => io_write::<W>(*e, *pre, slice, schedule, &format!("w{}", w.bits()))),
         Case::FlushRetry { e, w, bit, fields, faults, more } => for_w!(*w, W => flush_retry::<W>(*e, *bit, fields, *faults, more, &format!("w{}", w.bits()))),
         Case::WriteWords { w, n_words, seed, schedule } => for_w!(*w, W => write_words::<W>(*n_words as usize, *seed, schedule, &format!("w{}", w.bits()))),
@@ -826,6 +891,33 @@ fn run(ctx: &Ctx, env: &Env) -> Stats {
         part.finish()
     }));
     jobs.push(Box::new(move |ctx: &Ctx| {
+        let mut part = Part::new(ctx, "drop_faults", "a bit writer dropped without flush over a sink with one fault at every call index, pending bits 0..=W", true);
+        let f = |c: &Case| check_case(c, env);
+        for w in Wd::WRITER {
+            for e in En::ALL {
+                for words in 0..=2usize {
+                    for pending in [0usize, 1, 3, w.bits() / 2, w.bits() - 1] {
+                        let mut fields: Vec<(u64, u8)> = vec![];
+                        let mut left = words * w.bits() + pending;
+                        while left > 0 {
+                            let k = left.min(61);
+                            fields.push((0x9E37_79B9_7F4A_7C15u64.rotate_left(left as u32), k as u8));
+                            left -= k;
+                        }
+                        for at in 0..4usize {
+                            for act in [Act::Fail, Act::Interrupted, Act::Limit(1), Act::Limit(0)] {
+                                let mut schedule = vec![Act::Limit(255); at];
+                                schedule.push(act);
+                                part.check(&Case::DropFault { e, w, fields: fields.clone(), schedule }, &f);
+                            }
+                        }
+                    }
+                }
+            }
+        }
+        part.finish()
+    }));
+    jobs.push(Box::new(move |ctx: &Ctx| {
         let mut part = Part::new(ctx, "io_write_faults", "io::Write::write_all of 0..=20 bytes through a bit writer over the adapter, one fault at every sink call index", true);
         let f = |c: &Case| check_case(c, env);
         for w in Wd::WRITER {
@@ -877,7 +969,12 @@ fn run(ctx: &Ctx, env: &Env) -> Stats {
 
 pub fn gen_case(s: &mut Src) -> Case {
     let w = s.pick(&Wd::WRITER);
-    match s.below(8) {
+    match s.below(9) {
+        8 => {
+            let k = s.range(1, 12);
+            let fields = (0..k).map(|_| (s.u64(), crate::gen::gen_width(s, w.bits()))).collect();
+            Case::DropFault { e: crate::gen::gen_en(s), w, fields, schedule: gen_schedule(s, w.bytes(), true) }
+        }
         7 => {
             let n = s.below(40);
             Case::IoWrite { e: crate::gen::gen_en(s), w, pre: s.below(65) as u8, slice: (0..n).map(|_| s.u8()).collect(), schedule: gen_schedule(s, w.bytes(), true) }
